@@ -30,6 +30,8 @@ func oldDS(ns, name string, sel map[string]string) *appsv1.DaemonSet {
 		Spec: appsv1.DaemonSetSpec{Selector: &metav1.LabelSelector{MatchLabels: sel}}}
 }
 
+const longName = "a-name-of-exactly-sixty-four-characters-that-no-label-value-holds"
+
 func TestC12(t *testing.T) {
 	run := h.NewRun("C12", "model_checking")
 	b := 0
@@ -75,6 +77,10 @@ func TestC12(t *testing.T) {
 				strayPod("ns", "unowned-n2", "n2", map[string]string{"app": "agent"}, ""),
 				strayPod("other", "old-n2", "n2", map[string]string{"app": "agent"}, "old")},
 			raw: true, alpha: &w.Alpha{}, budget: 0},
+		// a neighbour whose name is longer than a label value may be (more than 63 characters): whatever becomes of its own replica
+		// sets, it must not see those of ns/foo
+		{name: "S6-neighbour-with-a-name-over-63-characters", nodes: nodes, extra: []client.Object{w.NewEDS("ns", longName, "A", w.WithFrequency(0))},
+			first: both("ns/" + longName), alpha: dev(), budget: b},
 		// the user ends the declared migration (removes the annotation) while pods of the old DaemonSet still run: from
 		// then on they are unrelated pods
 		{name: "S6-migration-called-off", nodes: []string{"n1", "n2"}, eds: []w.EDSOpt{w.WithAnnotation(v1.ExtendedDaemonSetOldDaemonsetAnnotationKey, "old"), w.WithRolling("1", "", 0, 0)},
